@@ -46,6 +46,7 @@ class SourceDataWrapper(ABC):
         # total number of rows - guessed from the first dataset
         total_n_rows = self._data_source[next(iter(mapping.values()))].shape[0]
 
+        self._total_n_rows = total_n_rows
         self._from_idx = from_idx
         self._to_idx = to_idx if to_idx is not None else total_n_rows
         self._n_rows = self._to_idx - self._from_idx  # number of rows to be loaded
@@ -169,7 +170,11 @@ class SourceDataWrapper(ABC):
 
         chunk = np.zeros(n_rows, dtype=self._dtype)
         for key, loc in self._mapping.items():
-            chunk[key] = self._data_source[loc][idx]
+            dset = self._data_source[loc]
+            if dset.shape[0] != self._total_n_rows:
+                raise ValueError(f"All data sets of a frame must have the same number of rows; got {dset.shape[0]} "
+                                 f"for '{loc}' and {self._total_n_rows} for the first data set of the frame")
+            chunk[key] = dset[idx]
 
         return chunk
 
